@@ -56,13 +56,13 @@ structure Stream where
   mult : Nat := 0     -- `step_mult` (an integer power of two; 0 while never set)
   deriving Repr, Inhabited, DecidableEq
 
-/-- `stage_t`: occupancy of the FIFO instead of the FIFO. -/
+/-- `stage_t`: occupancy of the FIFO instead of the FIFO.  (`step_mult` is written once by `vr_init` and never again:
+    it is the function `stageMult` of the stage number.) -/
 structure Stage where
   occ : Int := 0
   pre : Nat := 0      -- `preload`
   fast : Bool := true -- `is_fast`
   xf : Int := 0       -- `x_fade_len`
-  mult : Nat := 0     -- `step_mult`
   deriving Repr, Inhabited, DecidableEq
 
 /-- `rate_t`.  `newR`/`defR`: `none` is the C value 0 ("not set"). -/
@@ -118,14 +118,16 @@ def init (cfg : Cfg ρ) (mx : ρ) : St ρ :=
   { ns0 := ns0, ns := ns, defR := some mx,
     stages := (Array.range (ns + 1)).map fun (k : Nat) =>
       let i : Int := (k : Int) - 1
-      { occ := stagePreload i, pre := stagePreload i, fast := true, xf := 0, mult := stageMult i } }
+      { occ := stagePreload i, pre := stagePreload i, fast := true, xf := 0 } }
 
-/-- `enter_new_stage` (the `input` pointer is not modelled). -/
-def enter (s : St ρ) (occ0 : Int) : St ρ :=
-  let c := s.cur
+/-- `enter_new_stage` on the stream (the `input` pointer is not modelled). -/
+def enterStream (c : Stream) (occ0 : Int) : Stream :=
   let d := decide (c.sn ≥ 0)
-  let m := (s.stg c.sn).mult
-  { s with cur := { c with len := shiftr occ0 c.sn, isD := d, mult := if d then m / 2 else m } }
+  let m := stageMult c.sn
+  { c with len := shiftr occ0 c.sn, isD := d, mult := if d then m / 2 else m }
+
+/-- `enter_new_stage` -/
+def enter (s : St ρ) (occ0 : Int) : St ρ := { s with cur := enterStream s.cur occ0 }
 
 /-- `set_step` -/
 def setStep (cfg : Cfg ρ) (p : Stream) (r : ρ) : Stream := { p with step := cfg.num.stepOf r p.mult }
@@ -165,30 +167,38 @@ def setIoRatio (cfg : Cfg ρ) (s : St ρ) (r : ρ) (slew : Nat) : St ρ :=
       { s2 with slew := 0, newR := none, cur := { s2.cur with ss := 0 }, fo := { s2.fo with ss := 0 } }
     else s2
 
-/-- `do_input_stage`: how much the half-band (or doubling) stage `sn` produces from its neighbour, and the bookkeeping
-    of the fast/full cross-fade.  Returns `false` (state untouched) when there is nothing to do. -/
-def doInput (s : St ρ) (sn sign _minSn : Int) : St ρ × Bool :=
+/-- `len` of `do_input_stage`: what the neighbour's FIFO allows minus what is already there. -/
+def doInputLen (s : St ρ) (sn sign : Int) : Int :=
   let st := s.stg sn
   let s1 := s.stg (sn - sign)
-  let ln := shiftr (s1.occ - 2 * H2) sign - (st.occ - st.pre)
+  shiftr (s1.occ - 2 * H2) sign - (st.occ - st.pre)
+
+/-- the fast/full half-band cross-fade of one stage inside `do_input_stage` (lines 397–417):
+    new `(x_fade_len, is_fast, switch_stage_num, xfade)`. -/
+def xfadeStep (st : Stage) (inc : Bool) (sw xfade sn ln : Int) : Int × Bool × Int × Int :=
+  if sn < 0 then (st.xf, st.fast, sw, xfade) else
+  let trig : Bool := decide (st.xf = 0 ∧ sn = sw)
+  let sw1 := if trig then 0 else sw
+  let start : Bool := trig && (st.fast != inc)
+  let xf1 : Int := if start then xfadeLen else st.xf
+  let fast1 := if start then inc else st.fast
+  let xfade1 := if start then xfade + 1 else xfade
+  if xf1 ≠ 0 then
+    let xf2 := xf1 - min ln xf1
+    (xf2, fast1, sw1, if xf2 = 0 then xfade1 - 1 else xfade1)
+  else (xf1, fast1, sw1, xfade1)
+
+/-- `do_input_stage`: how much the half-band (or doubling) stage `sn` produces from its neighbour, and the bookkeeping
+    of the fast/full cross-fade.  Returns `false` (state untouched) when there is nothing to do.
+    `_minSn` only selects which filter computes the samples (`stage_num < min_stage_num`): no effect on control. -/
+def doInput (s : St ρ) (sn sign _minSn : Int) : St ρ × Bool :=
+  let ln := doInputLen s sn sign
   if ln ≤ 0 then (s, false) else
-  let st := { st with occ := st.occ + ln }
-  let (st, s) :=
-    if sn < 0 then (st, s) else
-      let fast := s.inc
-      let (st, s) :=
-        if st.xf = 0 ∧ sn = s.sw then
-          let s := { s with sw := 0 }
-          if st.fast ≠ fast then ({ st with xf := xfadeLen, fast := fast }, { s with xfade := s.xfade + 1 }) else (st, s)
-        else (st, s)
-      if st.xf ≠ 0 then
-        let n := min ln st.xf
-        let st := { st with xf := st.xf - n }
-        (st, if st.xf = 0 then { s with xfade := s.xfade - 1 } else s)
-      else (st, s)
-  -- `_minSn` only selects which filter computes the samples (`stage_num < min_stage_num`): no effect on control
-  let st := if s.fl > 0 then { st with occ := st.occ + st.pre } else st
-  (s.setStg sn st, true)
+  let st := s.stg sn
+  let x := xfadeStep st s.inc s.sw s.xfade sn ln
+  let occ' := st.occ + ln + (if s.fl > 0 then (st.pre : Int) else 0)
+  ({ s with sw := x.2.2.1, xfade := x.2.2.2,
+            stages := s.stages.set! (sn + 1).toNat { st with occ := occ', xf := x.1, fast := x.2.1 } }, true)
 
 /-! ### Interpolator loops (clock arithmetic only) -/
 
@@ -257,29 +267,33 @@ def stageDif (s : St ρ) : Int :=
 
 def b2i (b : Bool) : Int := if b then 1 else 0
 
+/-- lines 487–494: a stage that was not running is restarted (FIFO cleared, preloaded, full filter) and fed. -/
+def switchFifoA (s : St ρ) (dif : Int) : St ρ :=
+  if (s.cur.sn < 0 ∧ dif < 0) ∨ (s.cur.sn > 0 ∧ dif > 0) then
+    let st := s.stg s.cur.sn
+    (doInput (s.setStg s.cur.sn { st with occ := st.pre, fast := false }) s.cur.sn dif s.cur.sn).1
+  else s
+
+/-- lines 495–500: going down to a half-band stage that is still running: trim it to the read position and refill. -/
+def switchFifoB (s : St ρ) (dif : Int) : St ρ :=
+  if s.cur.sn > 0 ∧ dif < 0 then
+    let st := s.stg s.cur.sn
+    (doInput (s.setStg s.cur.sn { st with occ := 2 * H2 + INT s.cur.clk + (PD / 2 : Nat) }) s.cur.sn 1 s.cur.sn).1
+  else s
+
+/-- lines 502–508: the clock, the increment and the slew increment of the new current stream are rescaled by one
+    power of two; the fade of the two streams starts. -/
+def rescale (s : St ρ) (dif : Int) : St ρ :=
+  let sh : Int := -dif + (b2i s.fo.isD - b2i s.cur.isD)
+  { s with cur := { s.cur with clk := lshift s.cur.clk (-dif), step := lshift s.cur.step sh, ss := lshift s.cur.ss sh },
+           fade := fadeLen }
+
 /-- lines 482–508: switch the interpolator to the neighbouring stage and start the cross-fade of the two streams. -/
 def switchStage (s : St ρ) (dif occ0 : Int) : St ρ :=
-  let s := { s with inc := decide (dif > 0), fo := s.cur, cur := { s.cur with sn := s.cur.sn + dif } }
-  let s := if !s.inc then { s with sw := s.cur.sn } else s
-  let s :=
-    if (s.cur.sn < 0 ∧ dif < 0) ∨ (s.cur.sn > 0 ∧ dif > 0) then
-      let st := s.stg s.cur.sn
-      let s := s.setStg s.cur.sn { st with occ := st.pre, fast := false }
-      (doInput s s.cur.sn dif s.cur.sn).1
-    else s
-  let s :=
-    if s.cur.sn > 0 ∧ dif < 0 then
-      let st := s.stg s.cur.sn
-      let s := s.setStg s.cur.sn { st with occ := 2 * H2 + INT s.cur.clk + (PD / 2 : Nat) }
-      (doInput s s.cur.sn 1 s.cur.sn).1
-    else s
-  let s := enter s occ0
-  let sh : Int := -dif
-  let c := s.cur
-  let c := { c with clk := lshift c.clk sh }
-  let sh := sh + (b2i s.fo.isD - b2i c.isD)
-  let c := { c with step := lshift c.step sh, ss := lshift c.ss sh }
-  { s with cur := c, fade := fadeLen }
+  let sn' := s.cur.sn + dif
+  let s1 := { s with inc := decide (dif > 0), fo := s.cur, cur := { s.cur with sn := sn' } }
+  let s2 := if dif > 0 then s1 else { s1 with sw := sn' }
+  rescale (enter (switchFifoB (switchFifoA s2 dif) dif) occ0) dif
 
 /-- result of the interpolation part of one chunk -/
 structure KRes (ρ : Type) where
@@ -290,23 +304,28 @@ structure KRes (ρ : Type) where
   mx : Int
   mis : Bool      -- `odone != odone2` (the C `assert`)
 
+/-- the two cross-faded streams of lines 522–532 (the 2x-rate stream first, its count fed to the other):
+    `(current', fadeout', odone, odone2)`. -/
+def fadeStreams (c f : Stream) (olen2 : Nat) : Stream × Stream × Nat × Nat :=
+  if c.isD && f.isD then
+    let a := firD c olen2; let b := firD f a.2; (a.1, b.1, a.2, b.2)
+  else if c.isD then
+    let a := firD c olen2; let b := fadeU f a.2; (a.1, b.1, a.2, b.2)
+  else
+    let a := firD f olen2; let b := fadeU c a.2; (b.1, a.1, a.2, b.2)
+
 /-- lines 513–552 -/
 def kernels (s : St ρ) (olen mn mx : Int) : KRes ρ :=
   if s.fade ≠ 0 then
     let olen := min olen (s.fade / 2)
-    let olen2 := (2 * olen).toNat
-    let (c, f, odone, odone2) :=
-      if s.cur.isD && s.fo.isD then
-        let a := firD s.cur olen2; let b := firD s.fo a.2; (a.1, b.1, a.2, b.2)
-      else if s.cur.isD then
-        let a := firD s.cur olen2; let b := fadeU s.fo a.2; (a.1, b.1, a.2, b.2)
-      else
-        let a := firD s.fo olen2; let b := fadeU s.cur a.2; (b.1, a.1, a.2, b.2)
-    let fade := s.fade - odone
-    let (sw, mn, mx) :=
-      if fade = 0 then (if s.inc then (mn, mn + 1, mx) else (s.sw, mn, mx - 1)) else (s.sw, mn, mx)
-    { st := { s with cur := c, fo := f, fade := fade, sw := sw }, olen := olen, od := odone / 2, mn := mn, mx := mx,
-      mis := odone ≠ odone2 }
+    let x := fadeStreams s.cur s.fo (2 * olen).toNat
+    let fade := s.fade - x.2.2.1
+    let done : Bool := decide (fade = 0)
+    { st := { s with cur := x.1, fo := x.2.1, fade := fade, sw := if done && s.inc then mn else s.sw },
+      olen := olen, od := x.2.2.1 / 2,
+      mn := if done && s.inc then mn + 1 else mn,
+      mx := if done && !s.inc then mx - 1 else mx,
+      mis := x.2.2.1 != x.2.2.2 }
   else if s.cur.isD then
     let a := firD s.cur (2 * olen).toNat
     { st := { s with cur := a.1 }, olen := olen, od := a.2 / 2, mn := mn, mx := mx, mis := false }
@@ -323,19 +342,31 @@ structure LoopSt (ρ : Type) where
   nsw : Nat := 0  -- ghost: stage switches taken
   nmis : Nat := 0 -- ghost: chunks in which the two cross-faded streams produced different amounts
 
+/-- does this chunk switch stages?  (`stage_dif` and `n < p->num_stages`) -/
+def doesSwitch (s : St ρ) : Bool := decide (stageDif s ≠ 0 ∧ s.cur.sn + stageDif s < s.ns)
+
+/-- `min_stage_num` after the switch decision -/
+def chunkMn (l : LoopSt ρ) (dif : Int) : Int := if dif = -1 then l.mn - 1 else l.mn
+
+/-- `max_stage_num` after the switch decision (`++max_stage_num`, and `--max_stage_num` when there is no such stage) -/
+def chunkMx (l : LoopSt ρ) (dif : Int) (fits : Bool) : Int :=
+  let mx1 := if dif = 1 then l.mx + 1 else l.mx
+  if dif ≠ 0 ∧ fits = false then mx1 - 1 else mx1
+
+/-- lines 553–555 and the loop-carried locals after a chunk -/
+def chunkFinish (l : LoopSt ρ) (sw : Bool) (k : KRes ρ) : LoopSt ρ :=
+  { st := if k.st.slew ≠ 0 then { k.st with slew := k.st.slew - k.od } else k.st,
+    mn := k.mn, mx := k.mx, od0 := l.od0 + k.od,
+    nsw := l.nsw + (if sw then 1 else 0), nmis := l.nmis + (if k.mis then 1 else 0) }
+
 /-- one iteration of `while (odone0 < olen0)`; the flag says whether the loop goes on (`odone == olen`). -/
 def chunk (cfg : Cfg ρ) (occ0 : Int) (olen0 : Nat) (l : LoopSt ρ) : LoopSt ρ × Bool :=
-  let (s, olen) := chunkStart cfg l.st (olen0 - l.od0)
-  let dif := stageDif s
-  let (mn, mx) := if dif = 1 then (l.mn, l.mx + 1) else if dif = -1 then (l.mn - 1, l.mx) else (l.mn, l.mx)
-  let (s, mx, sw) :=
-    if dif ≠ 0 then
-      if s.cur.sn + dif ≥ s.ns then (s, mx - 1, false) else (switchStage s dif occ0, mx, true)
-    else (s, mx, false)
-  let k := kernels s olen mn mx
-  let s := if k.st.slew ≠ 0 then { k.st with slew := k.st.slew - k.od } else k.st
-  ({ st := s, mn := k.mn, mx := k.mx, od0 := l.od0 + k.od, nsw := l.nsw + (if sw then 1 else 0),
-     nmis := l.nmis + (if k.mis then 1 else 0) }, (k.od : Int) = k.olen)
+  let a := chunkStart cfg l.st (olen0 - l.od0)
+  let dif := stageDif a.1
+  let sw := doesSwitch a.1
+  let s := if sw then switchStage a.1 dif occ0 else a.1
+  let k := kernels s a.2 (chunkMn l dif) (chunkMx l dif (decide (a.1.cur.sn + dif < a.1.ns)))
+  (chunkFinish l sw k, decide ((k.od : Int) = k.olen))
 
 /-- the `while` loop; every continuing chunk delivers at least one frame, so `olen0 + 1` units of fuel suffice. -/
 def loop (cfg : Cfg ρ) (occ0 : Int) (olen0 : Nat) : Nat → LoopSt ρ → LoopSt ρ
